@@ -12,7 +12,7 @@ FUNCTIONS = ['Density.logd', 'Distribution.logd/_condition/_parse_args_add_to_kw
              '_reduce_to_single_density/_add_constants_to_density/_parse_args_add_to_kwargs/_as_stacked',
              '_StackedJointDistribution.logd', 'MultipleLikelihoodPosterior', 'BayesianProblem.__init__/set_data/posterior',
              'factor families: Gaussian (callable cov/prec), GMRF, LMRF, Gamma (scipy contract stub), harness UFDist (uninterpreted density)']
-BOUNDS = {'graphs': 'a: y|x;x  b: y|x,s; x|d; d; s  c: y1|x; y2|x; x  d: two-argument callables for mean and spread; '
+BOUNDS = {'graphs': 'a: y|x;x  b: y|x,s; x|d; d; s  c: y1|x; y2|x; x  f: y1|x; y2|x; x|s; s  d: two-argument callables for mean and spread; '
                     'e (thorough): every DAG on <=4 uninterpreted nodes with <=2 parents',
           'variables': 'dims 1-2, all values symbolic', 'programs': 'every subset of variables fixed, every ordered partition into <=2 (quick) / <=3 (thorough) conditioning calls, keyword and positional passing'}
 OUTSIDE = ['graphs with > 4 variables', 'variable dimensions > 2']
@@ -102,6 +102,18 @@ def build_graph(c, g):
         ref = lambda v: (gauss_ref(v['y1'], mv(A2, v['x']), 0.5) + gauss_ref(v['y2'], mv(B2, v['x']), 1 / 3.0)
                          + gauss_ref(v['x'], [1, 1], 2.0))
         return [y1, y2, x], vals, ref
+    if g == 'f':
+        # two likelihoods on x AND a hyper-parameter: fixing the data and s ends in the multiple-likelihood reduction with a constant to carry
+        A = M.LinearModel(A2)
+        B = M.LinearModel(B2)
+        s = D.Gamma(2, 1e-1, name='s')
+        x = D.Gaussian(np.ones(2), cov=lambda s: 1 / s, name='x', geometry=2)
+        y1 = D.Gaussian(A(x), cov=0.5, name='y1', geometry=2)
+        y2 = D.Gaussian(B(x), prec=3.0, name='y2', geometry=2)
+        vals = {'y1': c.reals('vy1', 2), 'y2': c.reals('vy2', 2), 'x': c.reals('vx', 2), 's': core.positive(c, 'vs')}
+        ref = lambda v: (gauss_ref(v['y1'], mv(A2, v['x']), 0.5) + gauss_ref(v['y2'], mv(B2, v['x']), 1 / 3.0)
+                         + gauss_ref(v['x'], [1, 1], 1 / v['s']) + gamma_ref(v['s'], 2, 1e-1))
+        return [y1, y2, x, s], vals, ref
     if g == 'e':
         # a variable that is independent of everything that gets fixed (the joint reduces to a plain distribution)
         A = M.LinearModel(A2)
@@ -205,8 +217,8 @@ def ordered_partitions(items, max_stages):
 
 def configs(tier, seed=0):
     out = []
-    graphs = ['a', 'b', 'c', 'd', 'e', 'b-gmrf', 'b-lmrf']
-    nvars = {'a': 2, 'b': 4, 'c': 3, 'd': 5, 'e': 3, 'b-gmrf': 4, 'b-lmrf': 3}
+    graphs = ['a', 'b', 'c', 'd', 'e', 'f', 'b-gmrf', 'b-lmrf']
+    nvars = {'a': 2, 'b': 4, 'c': 3, 'd': 5, 'e': 3, 'f': 4, 'b-gmrf': 4, 'b-lmrf': 3}
     stages = 2 if tier == 'quick' else 3
     for g in graphs:
         out.append({'key': 'graph/%s/programs' % g, 'kind': 'programs', 'graph': g, 'stages': stages,
